@@ -109,8 +109,8 @@ FailedIsNoop(pre, a, res, post) ==
 WithWorld(fam) == fam \in {"econ", "bulk", "fees"}
 ExtAct(a) == a.k \in {"ExtDeposit", "ExtExec", "ExtMine"}
 \* an ExtExec line must pay out exactly the batch the hub holds (otherwise the script is inconsistent)
-ExecConsistent(pre, a) ==
-    a.k # "ExtExec" \/ \E b \in pre.ch[a.chain].bat : b.tok = a.ev.tok /\ b.n = a.ev.bn /\ a.paid = SumOver(b.txs, LAMBDA tr : tr.a)
+ExecConsistent(xw, pre, a) ==
+    a.k # "ExtExec" \/ \E b \in pre.ch[a.chain].bat \cup xw[a.chain].pub : b.tok = a.ev.tok /\ b.n = a.ev.bn /\ a.paid = SumOver(b.txs, LAMBDA tr : tr.a)
 
 \* C16  the relayer-facing queries answer exactly the recorded confirmations, each attributed to the external
 \* address its validator had registered when it confirmed (gc: chain -> tx -> validator -> that address), and
@@ -149,7 +149,7 @@ PropChecks(g, xw, fam, pre, a, res, post) ==
        FailedIsNoop(pre, a, res, post)
   \cup (IF Modelled(a) THEN StepChecks(g, pre, a, res, post) \cup C01Step(pre, a, post) ELSE C05Checks(a, res))
   \cup (IF WithWorld(fam) /\ ~Solvent(post, xw) THEN {<<"C01:Solvency", "">>} ELSE {})
-  \cup (IF ~ExecConsistent(pre, a) THEN {<<"infra:ExecInconsistent", "">>} ELSE {})
+  \cup (IF WithWorld(fam) /\ ~ExecConsistent(xw, pre, a) THEN {<<"infra:ExecInconsistent", "">>} ELSE {})
 
 \* ---------------------------------------------------------------- the trace automaton
 InitHist == [cfg |-> <<>>, pre |-> <<>>, g |-> <<>>, gc |-> <<>>, xw |-> <<>>, fam |-> "", n |-> 0, id |-> "", viol |-> {}, cov |-> <<>>]
@@ -178,7 +178,8 @@ ConsumeStep ==
                                     !.cov = Bump(@, CovKey(line.act, line.res))]
        ELSE LET post == StateOf(line.post, hist.cfg)
                 gc2  == GcNext(hist.gc, hist.pre, line.act, line.res)
-                xw2  == IF ExtAct(line.act) /\ WithWorld(hist.fam) THEN XwApply(hist.xw, line.act) ELSE hist.xw
+                xw1  == IF ExtAct(line.act) /\ WithWorld(hist.fam) THEN XwApply(hist.xw, line.act) ELSE hist.xw
+                xw2  == IF WithWorld(hist.fam) THEN XwObserve(xw1, post) ELSE xw1
             IN /\ fails' = ConfChecks(hist.pre, line.act, line.res, post) \cup PropChecks(hist.g, xw2, hist.fam, hist.pre, line.act, line.res, post)
                             \cup C16Queries(gc2, post)
                /\ hist' = [hist EXCEPT !.pre = post, !.xw = xw2, !.gc = gc2,
